@@ -10,6 +10,7 @@ def main(tier, t0):
     st = selftest.run(seed(), rounds=40)
     findings = [f for f in load_findings(PROP) if f.get("family") == "ttl"]
     tasks = [("harness.ttl", "run_obligation", name, dict(spec=spec, findings=findings)) for name, spec in ttl.skeletons(tier)]
+    tasks += [("harness.ttl", "run_raw", "out-of-dialect/" + n, dict(name=n)) for n in ttl.RAW_DOCS]
     results = run_pool(tasks, budget_s=900 if tier == "quick" else 5400)
     meta = dict(functions_encoded=ttl.FUNCTIONS, bounds={"tier": ttl.BOUNDS[tier]}, assumptions=ttl.ASSUMPTIONS, stubs=shims.STUBS_DOC[1:],
                 explanation="every (abstract document, layout vector) pair is executed symbolically through the real reader; on each path z3 decides whether the "
